@@ -9,6 +9,7 @@ From CXV Require Gen.PinsC12.
 From CXV Require Import Gen.TopLoop Parse.Balanced Parse.TopLoop.
 From CXV Require Gen.Facts.
 From CXV Require Import Gen.TokTy Parse.Declarator Parse.DeclSpec Parse.EnumList Parse.NsHeader.
+From CXV Require Import Parse.DeclThms Parse.Specs Parse.DeclStmt Parse.Bodies.
 Open Scope N_scope.
 
 (* fold_compositional: the result of a concatenation of two declaration
@@ -84,6 +85,33 @@ Proof. exact calls_in_order. Qed.
 Theorem parser_keeps_no_other_state : Facts.fact_parser_instance_state_is_the_known_set = true.
 Proof. exact (eq_refl true). Qed.
 
+(* "Parsing the concatenation of two complete declaration sequences yields exactly the concatenation of their individual
+   results" on the PARSER side (the visitor side is fold_compositional): the statement loop over the regenerated dispatch
+   table with the declaration models behind it.  For sequences A and B of declaration statements (each any statement the
+   statement theorems of C01 cover -- abstractly: tokens that start with a token going to _parse_declarations and that the
+   declaration models decode whatever follows), the items of A B are the items of A followed by the items of B: no
+   specifier, template header, type or parser state of a statement reaches the next one. *)
+Theorem declaration_sequences_concatenate_partial : forall n A B stop rest,
+  Forall (fun p => ns_stmt_ok n (fst p) (snd p)) A -> Forall (fun p => ns_stmt_ok n (fst p) (snd p)) B -> stop_tok stop ->
+  ev (fun f => ns_body (S (length (A ++ B))) n f (concat (map fst A) ++ concat (map fst B) ++ stop :: rest))
+     (DOk (map snd A ++ map snd B, stop :: rest)).
+Proof. exact ns_body_concatenation. Qed.
+
+(* ... and the statements of declaration_statement_decodes_partial (C01) are such statements *)
+Theorem declaration_statements_compose : forall pre post b items last le,
+  forallb spec_kw pre = true -> forallb spec_kw post = true ->
+  has T_explicit (pre ++ post) = false -> has T_virtual (pre ++ post) = false -> has T_mutable (pre ++ post) = false ->
+  Forall ditem_ok items -> ditem_ok last -> last_ok last le ->
+  is_decl_head (hd (nm_tok b) (kw_toks pre)) ->
+  let m := apply_kws (pre ++ post) mods0 in
+  let bt := TBase b (m_const m) (m_volatile m) in
+  ns_stmt_ok (S (length items))
+    (kw_toks pre ++ nm_tok b :: kw_toks post ++ items_toks items last le)
+    (NDecls m (map (ditem_entry bt) items ++ [last_entry bt last le])).
+Proof. exact decl_stmt_is_stmt. Qed.
+
+Print Assumptions declaration_sequences_concatenate_partial.
+Print Assumptions declaration_statements_compose.
 Print Assumptions namespace_header_decodes.
 Print Assumptions namespace_alias_decodes.
 Print Assumptions inline_nested_namespace_rejected.
